@@ -751,8 +751,12 @@ func drawGoReplaces(t *rapid.T, recs []Record, lhs map[string]bool, uniq func(fu
 				add(p, "", bn, bv)
 			}
 		case 1: // several exact versions of one path: the required ones and one that is not required
+			if len(multi) > 0 {
+				r := recs[multi[rapid.IntRange(0, len(multi)-1).Draw(t, "target_several")]]
+				p, v = r.Name, r.Version
+			}
 			for _, i := range reqs {
-				if recs[i].Name == p && (recs[i].Version == v || coin(t, "other_required_version", 2)) {
+				if recs[i].Name == p && (recs[i].Version == v || !coin(t, "skip_other_required_version", 4)) {
 					nn, nv := rhs(p, recs[i].Version)
 					add(p, recs[i].Version, nn, nv)
 				}
